@@ -472,6 +472,7 @@ func checkC12(c *hx.Checker) {
 			})
 		}
 	}
+	loadersRefusableCases(c)
 	// further observation points: the same weights through NewModelFromFile and NewModelFromZipFile (stored / deflated)
 	for _, n := range []int{7, 9000, 40000, 262147} {
 		for _, compressible := range []bool{false, true} {
